@@ -50,6 +50,17 @@ def correspond(ctx, scale):
     def fail(key, what, case):
         failures.append({'key': key, 'what': what, 'case': case})
 
+    sample_kinds = {}
+
+    def sample(kind, out, idx, dec, **info):
+        # a few of the actual cases of this run, written out for the evidence record (at most two per stratum)
+        if sample_kinds.get(kind, 0) >= 2:
+            return
+        sample_kinds[kind] = sample_kinds.get(kind, 0) + 1
+        xs = list(info.pop('x').shape)
+        samples.append(dict(info, kind=kind, input_shape=xs, indices=idx.reshape(-1)[:12].tolist(),
+                            forward_output_first=out.reshape(-1)[:6].tolist(), decoded_first=dec.reshape(-1)[:6].tolist()))
+
     shape_counter = [0]
 
     def shapes(layout, dim, rng):
@@ -94,6 +105,7 @@ def correspond(ctx, scale):
             want = out.movedim(1, -1) if layout == 'image' else out
             ok, why = close(dec, want, False)
             nt += idx.unique().numel() >= 2
+            sample('VectorQuantize', want, idx, dec, x=x, kw=dict(kw), mode=mode, decode_equals_output=ok)
             if not ok:
                 fail(key + ':mismatch', f'VectorQuantize({kw}) {mode}: decode(indices) != output: {why}', dict(kw=kw, mode=mode))
             # model tie (no projection, single codebook table per head): the model's table lookup on these indices equals the decoder's output
@@ -213,7 +225,8 @@ def correspond(ctx, scale):
                     if not ok and dec.shape == out.shape and layout in ('image', 'video', 'cfirst'):
                         # square extents: the shapes cannot tell whether the decoder returned the feature axis last (its documented layout) - accept that reading
                         ok, why = close(dec, out.movedim(1, -1), exact_eval and mode == 'eval')
-                    nt += 1
+                    nt += idx.unique().numel() >= 2
+                    sample(name, want, idx, dec, x=x, layout=layout, mode=mode, call_kwargs=sorted(kwargs), decode_equals_output=ok)
                     if not ok:
                         fail(key + ':mismatch', f'{name} ({layout}, {mode}): decode(indices) != output: {why}', dict(name=name, layout=layout, mode=mode))
                         continue
@@ -351,6 +364,7 @@ def correspond(ctx, scale):
                     dec, out = torch.where(zt, torch.zeros_like(dec), dec), torch.where(zt, torch.zeros_like(out), out)
             ok, why = close(dec, out, exact and mode == 'eval')
             nt += idx.unique().numel() >= 2
+            sample(name, out, idx, dec, x=x, layout=lay, mode=mode, decode_equals_output=ok)
             # other input precisions (projection-free FSQ / LFQ): the returned indices still decode to the returned output, rounded to that precision
             if ok and exact and mode == 'eval' and name in ('fsq', 'lfq'):
                 for dt in (torch.float64, torch.bfloat16, torch.float16):
